@@ -7,6 +7,10 @@
 //! harmless (verify says fine and the content is bit-identical) | undetected-and-different (verify says fine, read_file
 //! returns Ok with other bytes) = violation.
 //! Every probe runs in a forked child: a panic inside an `extern "C"` function aborts the process and could not be trapped.
+//!
+//! Verifier flags are an axis of their own: each selection a caller can make is driven individually (FILE_CRC|FILE_MD5,
+//! FILE_CRC alone, FILE_MD5 alone, 0 = "everything available"), and detection is demanded exactly when the archive carries
+//! the attribute the selection names (FILE_MD5 alone on a CRC32-only archive has nothing to compare and is not driven).
 
 #[path = "../../../vh-mpq/src/bin/c10.rs"]
 #[allow(dead_code, unused_imports)]
@@ -59,10 +63,31 @@ fn c_verify_archive(path: &Path, flags: u32) -> Option<bool> {
     }
 }
 
+/// Name of a flag selection, for class strings, descriptions and signatures.
+fn flags_name(flags: u32) -> &'static str {
+    match flags {
+        0 => "0",
+        VERIFY_FILE_CRC => "FILE_CRC",
+        VERIFY_FILE_MD5 => "FILE_MD5",
+        ATTR_FLAGS => "FILE_CRC|FILE_MD5",
+        _ => "other",
+    }
+}
+
+/// Signature suffix: nothing for the selection the check always used, the selection itself otherwise.
+fn flags_sfx(flags: u32) -> String {
+    if flags == ATTR_FLAGS { String::new() } else { format!("|flags={}", flags_name(flags)) }
+}
+
+/// The flag selections whose attribute the archive carries (attr 1 = CRC32 only, 2 = CRC32 + MD5).
+fn flag_selections(attr: u8) -> &'static [u32] {
+    if attr == 2 { &[ATTR_FLAGS, VERIFY_FILE_CRC, VERIFY_FILE_MD5, 0] } else { &[ATTR_FLAGS, VERIFY_FILE_CRC, 0] }
+}
+
 /// The attribute verifier on one file, then the content.
-fn probe_attr(path: &Path, targets: &[&StoredFile]) -> Verdict {
+fn probe_attr(path: &Path, targets: &[&StoredFile], flags: u32) -> Verdict {
     let names: Vec<&str> = targets.iter().map(|f| f.name.as_str()).collect();
-    let Some(res) = c_verify(path, &names, ATTR_FLAGS) else {
+    let Some(res) = c_verify(path, &names, flags) else {
         return Verdict::Detected("SFileOpenArchive:false".into());
     };
     if res.iter().any(|ok| !ok) {
@@ -149,6 +174,8 @@ struct FSpec {
     file: usize,
     region: &'static str,
     ck: &'static str,
+    /// the flags argument of SFileVerifyFile in this case
+    flags: u32,
 }
 
 fn fspecs(thorough: bool) -> Vec<FSpec> {
@@ -158,21 +185,58 @@ fn fspecs(thorough: bool) -> Vec<FSpec> {
         for file in 0..3 {
             for &region in file_regions(file) {
                 for &ck in cks {
-                    v.push(FSpec { kind: "attributes", cfg: cfg.clone(), file, region, ck });
+                    v.push(FSpec { kind: "attributes", cfg: cfg.clone(), file, region, ck, flags: ATTR_FLAGS });
                 }
             }
             // multi-region alterations an attacker-style modification would make: data + one attribute rewritten to match
             if cfg.attr == 2 {
-                v.push(FSpec { kind: "forged-crc32", cfg: cfg.clone(), file, region: "file_data+attr_crc32", ck: "x01" });
-                v.push(FSpec { kind: "forged-md5", cfg: cfg.clone(), file, region: "file_data+attr_md5", ck: "x01" });
+                v.push(FSpec { kind: "forged-crc32", cfg: cfg.clone(), file, region: "file_data+attr_crc32", ck: "x01", flags: ATTR_FLAGS });
+                v.push(FSpec { kind: "forged-md5", cfg: cfg.clone(), file, region: "file_data+attr_md5", ck: "x01", flags: ATTR_FLAGS });
             }
-            v.push(FSpec { kind: "zeroed-attrs", cfg: cfg.clone(), file, region: "file_data+attrs=0", ck: "x01" });
+            v.push(FSpec { kind: "zeroed-attrs", cfg: cfg.clone(), file, region: "file_data+attrs=0", ck: "x01", flags: ATTR_FLAGS });
         }
         let regs: &[&'static str] = if cfg.attr == 2 { &["attr_header", "attr_crc32", "attr_filetime", "attr_md5"] } else { &["attr_header", "attr_crc32"] };
         for &region in regs {
             for &ck in cks {
-                v.push(FSpec { kind: "attr-file", cfg: cfg.clone(), file: NOFILE, region, ck });
+                v.push(FSpec { kind: "attr-file", cfg: cfg.clone(), file: NOFILE, region, ck, flags: ATTR_FLAGS });
             }
+        }
+    }
+    // ---- every other flag selection, one at a time (appended after the cases above so that their indices stay put)
+    for cfg in crc_cfgs(thorough, &[1, 2]) {
+        for file in 0..3 {
+            for &flags in &flag_selections(cfg.attr)[1..] {
+                // quick: the bulk region only; thorough: every region of the file
+                let regs: &[&'static str] = if thorough { file_regions(file) } else { &["file_data"] };
+                for &region in regs {
+                    v.push(FSpec { kind: "attributes", cfg: cfg.clone(), file, region, ck: "x01", flags });
+                }
+            }
+            if cfg.attr == 2 {
+                // the forged attribute is the one NOT asked for alone / the other one must object when asked alone or through 0
+                let md5_sel: &[u32] = if thorough { &[VERIFY_FILE_MD5, 0] } else { &[VERIFY_FILE_MD5] };
+                let crc_sel: &[u32] = if thorough { &[VERIFY_FILE_CRC, 0] } else { &[VERIFY_FILE_CRC] };
+                for &flags in md5_sel {
+                    v.push(FSpec { kind: "forged-crc32", cfg: cfg.clone(), file, region: "file_data+attr_crc32", ck: "x01", flags });
+                }
+                for &flags in crc_sel {
+                    v.push(FSpec { kind: "forged-md5", cfg: cfg.clone(), file, region: "file_data+attr_md5", ck: "x01", flags });
+                }
+            }
+        }
+    }
+    // ---- archives that do not start at file offset 0 (see K7 in the vh-mpq worker)
+    for cfg in prefixed_crc_cfgs(thorough, 2) {
+        for file in 0..3 {
+            for &flags in flag_selections(cfg.attr) {
+                if !thorough && flags == 0 {
+                    continue;
+                }
+                v.push(FSpec { kind: "attributes", cfg: cfg.clone(), file, region: "file_data", ck: "x01", flags });
+            }
+        }
+        for &region in &["attr_crc32", "attr_md5"] {
+            v.push(FSpec { kind: "attr-file", cfg: cfg.clone(), file: NOFILE, region, ck: "x01", flags: ATTR_FLAGS });
         }
     }
     v
@@ -193,8 +257,8 @@ fn main() {
         let stride = stride_for(sp.region, thorough, &sp.cfg);
         let phase = rng.usize(stride);
         let shape = if sp.file == NOFILE { "archive" } else { ["single", "3-sector", "9-sector"][sp.file] };
-        let class = format!("{}|{}|{}|{}|{}", sp.kind, sp.cfg.label(), shape, sp.region, sp.ck);
-        let desc = json!({"kind": sp.kind, "verifier": "SFileVerifyFile(FILE_CRC|FILE_MD5)", "archive": sp.cfg.to_json(), "file_shape": shape, "region": sp.region, "corruption": sp.ck, "stride": stride, "phase": phase});
+        let class = format!("{}|{}|{}|{}|{}{}", sp.kind, sp.cfg.label(), shape, sp.region, sp.ck, flags_sfx(sp.flags));
+        let desc = json!({"kind": sp.kind, "verifier": format!("SFileVerifyFile(flags = {})", flags_name(sp.flags)), "archive": sp.cfg.to_json(), "file_shape": shape, "region": sp.region, "corruption": sp.ck, "stride": stride, "phase": phase});
         let path = dir.join(format!("c10f-{idx}.mpq"));
         run.case(idx, &class, desc, |c| {
             let b = match build(&sp.cfg, seed, &path) {
@@ -222,7 +286,7 @@ fn baseline(c: &mut Case, sp: &FSpec, b: &Built) -> bool {
     let scratch = b.path.parent().unwrap().to_path_buf();
     // in a child as well: the intact archive must not abort the caller either
     let v = isolated(&scratch, || {
-        for (flags, fname) in [(ATTR_FLAGS, "FILE_CRC|FILE_MD5"), (VERIFY_SECTOR_CRC | ATTR_FLAGS, "SECTOR_CRC|FILE_CRC|FILE_MD5"), (0u32, "0 (= everything available)")] {
+        for (flags, fname) in [(ATTR_FLAGS, "FILE_CRC|FILE_MD5"), (VERIFY_SECTOR_CRC | ATTR_FLAGS, "SECTOR_CRC|FILE_CRC|FILE_MD5"), (0u32, "0 (= everything available)"), (VERIFY_FILE_CRC, "FILE_CRC"), (VERIFY_FILE_MD5, "FILE_MD5")] {
             match c_verify(&b.path, &names, flags) {
                 None => return Verdict::Detected("SFileOpenArchive returned false".into()),
                 Some(r) => {
@@ -238,22 +302,22 @@ fn baseline(c: &mut Case, sp: &FSpec, b: &Built) -> bool {
             Some(true) => {}
             _ => return Verdict::Detected("SFileVerifyArchive(SIGNATURE) returned false on an unsigned archive|archive".into()),
         }
-        probe_attr(&b.path, &users)
+        probe_attr(&b.path, &users, sp.flags)
     });
-    c.count("baseline_verifications", 4 * names.len() as u64 + 1);
+    c.count("baseline_verifications", 6 * names.len() as u64 + 1);
     match v {
         Verdict::Harmless => true,
         Verdict::Detected(why) => {
             let shape = why.rsplit('|').next().unwrap_or("archive").to_string();
-            c.violate(format!("intact-fails|attributes|SFileVerifyFile|{shape}|{method}|{enc}|{}", attr_name(sp.cfg.attr)), format!("verifying the unmodified archive fails: {}", why.split('|').next().unwrap_or("")), json!({}));
+            c.violate(format!("intact-fails|attributes|SFileVerifyFile|{shape}|{method}|{enc}|{}{}", attr_name(sp.cfg.attr), off_sfx(&sp.cfg)), format!("verifying the unmodified archive fails: {}", why.split('|').next().unwrap_or("")), json!({}));
             false
         }
         Verdict::Undetected(d) => {
-            c.violate(format!("intact-differs|attributes|read_file|archive|{method}|{enc}"), "the unmodified archive does not read back what was added", d);
+            c.violate(format!("intact-differs|attributes|read_file|archive|{method}|{enc}{}", off_sfx(&sp.cfg)), "the unmodified archive does not read back what was added", d);
             false
         }
         Verdict::Crash(s) => {
-            c.violate(format!("intact-fails|attributes|SFileVerifyFile|archive|{method}|{enc}|{s}"), format!("verifying the unmodified archive crashes: {s}"), json!({}));
+            c.violate(format!("intact-fails|attributes|SFileVerifyFile|archive|{method}|{enc}|{s}{}", off_sfx(&sp.cfg)), format!("verifying the unmodified archive crashes: {s}"), json!({}));
             false
         }
     }
@@ -265,7 +329,9 @@ fn attr_case(c: &mut Case, sp: &FSpec, b: &Built, stride: usize, phase: usize) {
         return;
     }
     let users: Vec<&StoredFile> = b.user_files().map(|x| x.1).collect();
-    let akind = attr_name(sp.cfg.attr);
+    let akind = format!("{}{}{}", attr_name(sp.cfg.attr), flags_sfx(sp.flags), off_sfx(&sp.cfg));
+    let fl = flags_name(sp.flags);
+    c.count(&format!("cases_by_verifier_flags|{fl}"), 1);
     if sp.kind == "attr-file" {
         // bytes of the (attributes) file itself: file contents cannot change; the verifier may or may not object
         let Some(r) = b.region(sp.region, None) else {
@@ -274,7 +340,7 @@ fn attr_case(c: &mut Case, sp: &FSpec, b: &Built, stride: usize, phase: usize) {
             return;
         };
         let alts = alterations(&b.bytes, &r.ranges, sp.ck, stride, phase);
-        let t = sweep(c, b, r.ranges[0].0, alts, &[], true, || probe_attr(&b.path, &users));
+        let t = sweep(c, b, r.ranges[0].0, alts, &[], true, || probe_attr(&b.path, &users, sp.flags));
         t.flush(c, &format!("attributes|{}|archive", sp.region));
         if t.probes == 0 {
             c.nontrivial = false;
@@ -294,13 +360,14 @@ fn attr_case(c: &mut Case, sp: &FSpec, b: &Built, stride: usize, phase: usize) {
             return;
         };
         let alts = alterations(&b.bytes, &r.ranges, sp.ck, stride, phase);
-        let t = sweep(c, b, r.ranges[0].0, alts, &[], true, || probe_attr(&b.path, &one));
+        let t = sweep(c, b, r.ranges[0].0, alts, &[], true, || probe_attr(&b.path, &one, sp.flags));
         t.flush(c, &format!("attributes|{}|{}", sp.region, f.shape));
+        c.count(&format!("corrupted_by_verifier_flags|{fl}"), t.probes);
         if t.probes == 0 {
             c.nontrivial = false;
         }
         if t.violated > 0 {
-            c.violate(format!("undetected|attributes|{}|{}|{method}|{enc}|{akind}", sp.region, f.shape_sig()), format!("{} of {} alterations ({}) in the {} of the {} file {:?} ({method}, {enc}, {akind}): SFileVerifyFile(FILE_CRC|FILE_MD5) returned true and read_file returned Ok with different content", t.violated, t.probes, sp.ck, sp.region, f.shape, f.name), t.first_viol.clone().unwrap_or(json!({})));
+            c.violate(format!("undetected|attributes|{}|{}|{method}|{enc}|{akind}", sp.region, f.shape_sig()), format!("{} of {} alterations ({}) in the {} of the {} file {:?} ({method}, {enc}, {akind}): SFileVerifyFile(flags = {fl}) returned true and read_file returned Ok with different content", t.violated, t.probes, sp.ck, sp.region, f.shape, f.name), t.first_viol.clone().unwrap_or(json!({})));
         }
         return;
     }
@@ -385,7 +452,7 @@ fn attr_case(c: &mut Case, sp: &FSpec, b: &Built, stride: usize, phase: usize) {
             }
         }
         p.apply(&extra);
-        let v = isolated(&scratch, || probe_attr(&b.path, &one));
+        let v = isolated(&scratch, || probe_attr(&b.path, &one, sp.flags));
         p.restore(&extra);
         p.restore(&alt);
         alt.extend(extra);
@@ -393,6 +460,7 @@ fn attr_case(c: &mut Case, sp: &FSpec, b: &Built, stride: usize, phase: usize) {
     }
     c.count(&format!("offsets_where_read_already_fails|{}", sp.kind), not_forgeable);
     t.flush(c, &format!("attributes|{}|{}", sp.region, f.shape));
+    c.count(&format!("corrupted_by_verifier_flags|{fl}"), t.probes);
     if t.probes == 0 {
         c.nontrivial = false;
         c.skip(format!("no offset of {} where read_file accepts altered content ({not_forgeable} tried)", f.name));
@@ -404,6 +472,6 @@ fn attr_case(c: &mut Case, sp: &FSpec, b: &Built, stride: usize, phase: usize) {
             "forged-md5" => "a data byte altered and the MD5 attribute rewritten to match: the CRC32 attribute must object",
             _ => "a data byte altered and the file's CRC32/MD5 attribute entries zeroed",
         };
-        c.violate(format!("undetected|attributes|{}|{}|{method}|{enc}|{akind}", sp.region, f.shape_sig()), format!("{} of {} alterations of the {} file {:?} ({what}): SFileVerifyFile(FILE_CRC|FILE_MD5) returned true and read_file returned Ok with different content", t.violated, t.probes, f.shape, f.name), t.first_viol.clone().unwrap_or(json!({})));
+        c.violate(format!("undetected|attributes|{}|{}|{method}|{enc}|{akind}", sp.region, f.shape_sig()), format!("{} of {} alterations of the {} file {:?} ({what}): SFileVerifyFile(flags = {fl}) returned true and read_file returned Ok with different content", t.violated, t.probes, f.shape, f.name), t.first_viol.clone().unwrap_or(json!({})));
     }
 }
